@@ -513,6 +513,36 @@ class Inliner:
                     # arguments may themselves contain inlinable expression helpers
                     self._count += 1
                     self.inlined_count[helper.qual] = self.inlined_count.get(helper.qual, 0) + 1
+                    if helper_shape(helper.node) == "guards" and isinstance(st, (ast.Assign, ast.AnnAssign, ast.Return)):
+                        # several exits: every `return v` of the helper becomes the statement itself with v in place of
+                        # the call (`x = v` / `a, b = v` / `return v`) -- no temporary in between
+                        tag = f"{helper.name.strip('_')}{self._count}"
+                        resn = f"ret__{tag}"
+                        raw_stmts, _r = instantiate(helper.node, binds, tag, raw=True)
+                        try:
+                            se = to_single_exit(raw_stmts, resn, fallthrough=lambda: [ast.Assign(targets=[ast.Name(id=resn, ctx=ast.Store())], value=ast.Constant(value=None), lineno=getattr(st, "lineno", 0), col_offset=0)])
+                        except _Unsupported:
+                            se = None
+                        if se is not None:
+                            outer_st = st
+
+                            class R(ast.NodeTransformer):
+                                def visit_Assign(self, node):
+                                    if len(node.targets) == 1 and isinstance(node.targets[0], ast.Name) and node.targets[0].id == resn:
+                                        new_ = copy.deepcopy(outer_st)
+                                        new_.value = node.value
+                                        return ast.copy_location(new_, outer_st)
+                                    return node
+
+                                def visit_FunctionDef(self, node):
+                                    return node
+
+                            wrapper = ast.Module(body=se, type_ignores=[])
+                            R().visit(wrapper)
+                            self.log.append(f"{fi.qual}: inlined {helper.qual} at L{getattr(st, 'lineno', '?')} (each exit assigns the target directly)")
+                            for x in wrapper.body:
+                                ast.fix_missing_locations(x)
+                            return wrapper.body
                     stmts, result = instantiate(helper.node, binds, f"{helper.name.strip('_')}{self._count}")
                     self.log.append(f"{fi.qual}: inlined {helper.qual} at L{getattr(st, 'lineno', '?')}")
                     tail: List[ast.stmt] = []
@@ -674,14 +704,183 @@ def _inline_prebuilt_callables(program, known: Set[str]) -> List[str]:
     return log
 
 
+def _scalar_replacement(program, known: Set[str]) -> List[str]:
+    """Aggregates that only carry values between statements are taken apart, so that rules see the values:
+      1. an *unknown* NamedTuple class (not in the table of known classes, no methods) is a plain tuple: `NT(a, b)` is
+         `(a, b)` and `x.field` is `x[i]` where x is a local that only ever holds such tuples (built here or returned by
+         a function whose every return builds one);
+      2. a local that is only assigned tuple literals of one arity and only read as `t[<const>]` is split into one
+         local per component."""
+    log: List[str] = []
+    nts: Dict[str, List[str]] = {}
+    for q, c in program.classes.items():
+        if f"@{q}" in known or c.methods:
+            continue
+        if any(isinstance(b, ast.Name) and b.id == "NamedTuple" or isinstance(b, ast.Attribute) and b.attr == "NamedTuple" for b in c.node.bases):
+            fields = [st.target.id for st in c.node.body if isinstance(st, ast.AnnAssign) and isinstance(st.target, ast.Name)]
+            if fields and not any(isinstance(st, ast.AnnAssign) and st.value is not None for st in c.node.body):
+                nts[c.name] = fields
+
+    def as_tuple(call: ast.Call) -> Optional[ast.Tuple]:
+        fields = nts[call.func.id]
+        if any(isinstance(a, ast.Starred) for a in call.args) or any(k.arg is None for k in call.keywords) or len(call.args) > len(fields):
+            return None
+        vals = dict(zip(fields, call.args))
+        for k in call.keywords:
+            if k.arg in vals or k.arg not in fields:
+                return None
+            vals[k.arg] = k.value
+        if set(vals) != set(fields):
+            return None
+        t = ast.copy_location(ast.Tuple(elts=[vals[f_] for f_ in fields], ctx=ast.Load()), call)
+        t._mdsa_nt = call.func.id
+        return t
+
+    funcs = [fi for fi in program.functions.values() if isinstance(fi.node, (ast.FunctionDef, ast.AsyncFunctionDef))]
+    if nts:
+        class Ctor(ast.NodeTransformer):
+            def visit_Call(self, node):
+                self.generic_visit(node)
+                if isinstance(node.func, ast.Name) and node.func.id in nts:
+                    t = as_tuple(node)
+                    if t is not None:
+                        return t
+                return node
+
+        for fi in funcs:
+            if fi.parent is None:
+                Ctor().visit(fi.node)
+        # functions whose every value return builds a tuple of one NamedTuple class
+        returns_nt: Dict[str, str] = {}
+        for fi in funcs:
+            rv = [n.value for n in _walk_local(fi.node) if isinstance(n, ast.Return) and n.value is not None and not (isinstance(n.value, ast.Constant) and n.value.value is None)]
+            kinds = {getattr(v, "_mdsa_nt", None) for v in rv}
+            if rv and len(kinds) == 1 and None not in kinds:
+                returns_nt[fi.name] = kinds.pop()
+
+        def value_nt(v) -> Optional[str]:
+            if getattr(v, "_mdsa_nt", None):
+                return v._mdsa_nt
+            if isinstance(v, ast.Call):
+                nm = v.func.attr if isinstance(v.func, ast.Attribute) else v.func.id if isinstance(v.func, ast.Name) else None
+                return returns_nt.get(nm)
+            return None
+
+        for fi in funcs:
+            stores: Dict[str, List[Optional[str]]] = {}
+            for n in _walk_local(fi.node):
+                if isinstance(n, (ast.Assign, ast.AnnAssign)) and n.value is not None:
+                    for t in (n.targets if isinstance(n, ast.Assign) else [n.target]):
+                        if isinstance(t, ast.Name):
+                            stores.setdefault(t.id, []).append(value_nt(n.value))
+                        else:
+                            for x in ast.walk(t):
+                                if isinstance(x, ast.Name) and isinstance(x.ctx, ast.Store):
+                                    stores.setdefault(x.id, []).append(None)
+                elif isinstance(n, (ast.For, ast.AsyncFor, ast.With, ast.AsyncWith, ast.NamedExpr, ast.AugAssign, ast.comprehension)):
+                    for x in ast.walk(n.target if hasattr(n, "target") else n):
+                        if isinstance(x, ast.Name) and isinstance(x.ctx, ast.Store):
+                            stores.setdefault(x.id, []).append(None)
+            holder = {nm: ks[0] for nm, ks in stores.items() if ks and None not in ks and len(set(ks)) == 1}
+            a_ = fi.node.args
+            for p_ in a_.posonlyargs + a_.args + a_.kwonlyargs:
+                holder.pop(p_.arg, None)
+            if not holder and not returns_nt:
+                continue
+
+            class Proj(ast.NodeTransformer):
+                hits = 0
+
+                def visit_Attribute(self, node):
+                    self.generic_visit(node)
+                    if not isinstance(node.ctx, ast.Load):
+                        return node
+                    cls_ = holder.get(node.value.id) if isinstance(node.value, ast.Name) else value_nt(node.value)
+                    if cls_ and node.attr in nts[cls_]:
+                        Proj.hits += 1
+                        return ast.copy_location(ast.Subscript(value=node.value, slice=ast.Constant(value=nts[cls_].index(node.attr)), ctx=ast.Load()), node)
+                    return node
+
+            Proj().visit(fi.node)
+            if Proj.hits:
+                ast.fix_missing_locations(fi.node)
+                log.append(f"{fi.qual}: fields of unknown NamedTuple value(s) {sorted(set(holder.values()) | set(returns_nt.values()))} read as tuple components")
+    # 2. split locals that only hold tuple literals
+    for fi in funcs:
+        st_: Dict[str, List[ast.AST]] = {}
+        bad: Set[str] = set()
+        for n in _walk_local(fi.node):
+            if isinstance(n, ast.Assign) and len(n.targets) == 1 and isinstance(n.targets[0], ast.Name):
+                if isinstance(n.value, ast.Tuple) and not any(isinstance(e, ast.Starred) for e in n.value.elts):
+                    st_.setdefault(n.targets[0].id, []).append(n)
+                else:
+                    bad.add(n.targets[0].id)
+            elif isinstance(n, ast.Name) and isinstance(n.ctx, (ast.Store, ast.Del)):
+                pass
+        if not st_:
+            continue
+        parents = {}
+        for p_ in ast.walk(fi.node):
+            for ch in ast.iter_child_nodes(p_):
+                parents[id(ch)] = p_
+        plain_targets = {id(n.targets[0]) for ns in st_.values() for n in ns}
+        for n in _walk_local(fi.node):
+            if isinstance(n, ast.Name) and n.id in st_:
+                up = parents.get(id(n))
+                if isinstance(n.ctx, ast.Load):
+                    if not (isinstance(up, ast.Subscript) and up.value is n and isinstance(up.slice, ast.Constant) and isinstance(up.slice.value, int) and isinstance(up.ctx, ast.Load)):
+                        bad.add(n.id)
+                elif id(n) not in plain_targets:
+                    bad.add(n.id)
+        a_ = fi.node.args
+        bad |= {p_.arg for p_ in a_.posonlyargs + a_.args + a_.kwonlyargs}
+        # names used inside nested functions / comprehensions stay
+        for n in ast.walk(fi.node):
+            if isinstance(n, (ast.FunctionDef, ast.Lambda)) and n is not fi.node:
+                bad |= {x.id for x in ast.walk(n) if isinstance(x, ast.Name)}
+        todo = {}
+        for nm, ns in st_.items():
+            ar = {len(n.value.elts) for n in ns}
+            if nm in bad or len(ar) != 1:
+                continue
+            k = ar.pop()
+            idx_ok = all(0 <= parents[id(x)].slice.value < k for x in _walk_local(fi.node) if isinstance(x, ast.Name) and x.id == nm and isinstance(x.ctx, ast.Load))
+            if idx_ok and k > 0:
+                todo[nm] = k
+        if not todo:
+            continue
+
+        class Split(ast.NodeTransformer):
+            def visit_Assign(self, node):
+                self.generic_visit(node)
+                if len(node.targets) == 1 and isinstance(node.targets[0], ast.Name) and node.targets[0].id in todo and isinstance(node.value, ast.Tuple):
+                    nm = node.targets[0].id
+                    tg = ast.Tuple(elts=[ast.Name(id=f"{nm}__{i}", ctx=ast.Store()) for i in range(todo[nm])], ctx=ast.Store())
+                    return ast.copy_location(ast.Assign(targets=[tg], value=node.value), node)
+                return node
+
+            def visit_Subscript(self, node):
+                if isinstance(node.value, ast.Name) and node.value.id in todo and isinstance(node.ctx, ast.Load) and isinstance(node.slice, ast.Constant):
+                    return ast.copy_location(ast.Name(id=f"{node.value.id}__{node.slice.value}", ctx=ast.Load()), node)
+                return self.generic_visit(node)
+
+            def visit_FunctionDef(self, node):
+                return self.generic_visit(node) if node is fi.node else node
+
+        Split().visit(fi.node)
+        ast.fix_missing_locations(fi.node)
+        log.append(f"{fi.qual}: tuple-valued local(s) {sorted(todo)} split into components")
+    return log
+
+
 def apply(program) -> List[str]:
     known = load_known()
     if known is None:
         return []
     log = _inline_prebuilt_callables(program, known) if any(k.startswith("=") for k in known) else []
     inl = Inliner(program, known)
-    if not inl.helpers:
-        return log
-    inl.run()
-    inl.drop_fully_inlined()
-    return log + inl.log
+    if inl.helpers:
+        inl.run()
+        inl.drop_fully_inlined()
+    sr = _scalar_replacement(program, known) if any(k.startswith("@") for k in known) else []
+    return log + inl.log + sr
